@@ -662,6 +662,17 @@ func ruleV4(c *Ctx, id string) {
 			fromEnc = func(d ssa.Value, depth int) bool {
 				d = stripConv(d)
 				if dc, isC := d.(*ssa.Call); isC && dc.Call.StaticCallee() != nil {
+					if cal := dc.Call.StaticCallee(); cal.Name() == "Finish" && funcPkg(cal) != nil && strings.HasSuffix(funcPkg(cal).Path(), "tchajed/marshal") && len(dc.Call.Args) > 0 {
+						// the encoder is written out in place: enc := marshal.NewEnc(k); ...; enc.Finish()
+						for src := range bwdSources(dc.Call.Args[0]) {
+							if nc, isN := src.(*ssa.Call); isN && nc.Call.StaticCallee() != nil && nc.Call.StaticCallee().Name() == "NewEnc" {
+								if sz, isk := constInt(nc.Call.Args[0]); isk {
+									return sz == k
+								}
+							}
+						}
+						return false
+					}
 					_, capEnc, _ := codecOps(dc.Call.StaticCallee())
 					return capEnc == k
 				}
